@@ -145,6 +145,7 @@ func cmdCheck(args []string) int {
 	only := fs.String("only", "", "run only harnesses containing this substring")
 	solver := fs.String("solver", "z3", "z3|z3-new|cvc5")
 	timeout := fs.Int("timeout", 5000, "per-query timeout ms of the incremental solver (a one-shot fallback gets 8x)")
+	budget := fs.Int("budget", 0, "wall-clock budget of the exploration in seconds (default: 1500 quick, 5400 thorough); when it is used up the run ends INCONCLUSIVE unless a counterexample was confirmed")
 	noReplay := fs.Bool("no-replay", false, "skip native replay (debug)")
 	noEvidence := fs.Bool("no-evidence", false, "do not write the evidence file")
 	trace := fs.Bool("trace", false, "trace instructions")
@@ -229,21 +230,36 @@ func cmdCheck(args []string) int {
 			}
 		}()
 	}
+	if *budget <= 0 {
+		*budget = 1500
+		if *tier == "thorough" {
+			*budget = 5400
+		}
+	}
+	budgetTimer := time.AfterFunc(time.Duration(*budget)*time.Second, func() {
+		R.stop(fmt.Sprintf("wall budget of %d s used up before the exploration finished", *budget))
+	})
 	var wg sync.WaitGroup
 	for w := 0; w < cfg.Workers; w++ {
 		wg.Add(1)
 		go worker(w, P, q, R, cfg, &wg)
 	}
 	wg.Wait()
+	budgetTimer.Stop()
 	close(stopProg)
 	exploreS := time.Since(t0).Seconds() - loadS
 
-	// vacuity: every reach label of every harness must have been reached
-	labels := reachLabels(P, hs)
-	for _, h := range hs {
-		for _, l := range labels[h] {
-			if R.Reach[h][l] == 0 {
-				R.inconclusive(fmt.Sprintf("vacuity: %s never reaches %q", h, l))
+	if R.stopped() {
+		// not everything was explored: never a success
+		R.inconclusive(R.StopWhy)
+	} else {
+		// vacuity: every reach label of every harness must have been reached
+		labels := reachLabels(P, hs)
+		for _, h := range hs {
+			for _, l := range labels[h] {
+				if R.Reach[h][l] == 0 {
+					R.inconclusive(fmt.Sprintf("vacuity: %s never reaches %q", h, l))
+				}
 			}
 		}
 	}
